@@ -58,30 +58,41 @@ func v09Proto(q *v09Query) Protocol {
 // v09Build parses and compiles a generated rule file. The statement quantifies
 // over rule lists the parser accepts; a rejection of a line of the documented
 // form outbound(address[,protoPort[,hijack]]) means the harness grammar and the
-// parser disagree, which is not something this property can decide.
-func v09Build(file string, nrules, cache int) CompiledRuleSet[int] {
+// parser disagree, which is not something this property can decide. (A parser
+// that accepts the file but returns fewer rules is not excused: the lookups
+// decide, and every case asks one witness lookup per rule.)
+func v09Build(file string, cache int) CompiledRuleSet[int] {
 	trs, err := ParseTextRules(file)
 	if err != nil {
-		vInconclusive(fmt.Sprintf("C09 harness grammar produced a rule file the parser rejects: %v\n%s", err, file))
-	}
-	if len(trs) != nrules {
-		vInconclusive(fmt.Sprintf("C09 harness wrote %d rules, the parser returned %d\n%s", nrules, len(trs), file))
+		vInconclusive(fmt.Sprintf("C09 harness grammar produced a rule file the parser rejects: %v\n%s", err, v09Abbrev(file)))
 	}
 	rs, err := Compile[int](trs, v09ObMap(), cache, nil)
 	if err != nil {
-		vInconclusive(fmt.Sprintf("C09 harness grammar produced a rule file the compiler rejects: %v\n%s", err, file))
+		vInconclusive(fmt.Sprintf("C09 harness grammar produced a rule file the compiler rejects: %v\n%s", err, v09Abbrev(file)))
 	}
 	return rs
 }
 
 // v09CheckOne compares one lookup with the reference; returns "" or the violation text.
-func v09CheckOne(rs CompiledRuleSet[int], rules []v09Rule, obm map[string]int, q *v09Query) (string, int, []int) {
+// Names with a Punycode label (first == -2) are compared with the lower-case,
+// dot-less spelling of the same lookup on a fresh rule set instead.
+func v09CheckOne(rs CompiledRuleSet[int], fresh func() CompiledRuleSet[int], rules []v09Rule, obm map[string]int, q *v09Query) (string, int, []int) {
 	gotOb, gotHijack := rs.Match(v09HostInfo(q), v09Proto(q), q.Port)
+	if v09HasACE(q.Name) {
+		canon := *q
+		canon.Name = v09NormName(q.Name)
+		wantOb, wantHijack := fresh().Match(v09HostInfo(&canon), v09Proto(&canon), canon.Port)
+		if gotOb != wantOb || !gotHijack.Equal(wantHijack) {
+			return fmt.Sprintf("Match%v returned (outbound=%d, hijack=%v) but the same lookup spelled %q on a fresh rule set returns (outbound=%d, hijack=%v): host names must compare case-insensitively, ignoring a trailing dot, independent of history",
+				*q, gotOb, gotHijack, canon.Name, wantOb, wantHijack), -2, nil
+		}
+		return "", -2, nil
+	}
 	first, all := v09First(rules, q)
 	wantOb, wantHijack, why := 0, netip.Addr{}, "no rule matches -> default (zero outbound)"
 	if first >= 0 {
 		wantOb, wantHijack = obm[rules[first].Ob], rules[first].Hijack
-		why = fmt.Sprintf("first matching rule is #%d %q", first, strings.TrimSpace(rules[first].Text))
+		why = fmt.Sprintf("first matching rule is #%d %q", first, v09Abbrev(strings.TrimSpace(rules[first].Text)))
 	}
 	if gotOb != wantOb || !v09SameIP(gotHijack, wantHijack) {
 		return fmt.Sprintf("Match%v returned (outbound=%d, hijack=%v), want (outbound=%d, hijack=%v): %s", *q, gotOb, gotHijack, wantOb, wantHijack, why), first, all
@@ -94,7 +105,9 @@ func v09Classes(rules []v09Rule, qs []v09Query, firsts []int, sh v09Shape, capN 
 	add := func(s string) { seen[s] = true }
 	add(fmt.Sprintf("cache=%d", capN))
 	for i, f := range firsts {
-		if f < 0 {
+		if f == -2 {
+			add("query:punycode-name(spelling/history invariance)")
+		} else if f < 0 {
 			add("decided:default")
 		} else {
 			add("decided:" + v09KindNames[rules[f].Kind])
@@ -130,7 +143,7 @@ func v09Classes(rules []v09Rule, qs []v09Query, firsts []int, sh v09Shape, capN 
 	out := make([]string, 0, len(seen))
 	for _, k := range []string{"cache=1", "cache=2", "cache=4", "cache=1024", "decided:default", "decided:exact", "decided:suffix",
 		"decided:wildcard", "decided:ip", "decided:cidr", "decided:all", "decided:with-hijack", "decided:by-later-rule",
-		"query:case-or-dot-variant", "query:ip-literal-host", "repeat:cache-hit", "repeat:hit-under-other-spelling",
+		"query:case-or-dot-variant", "query:ip-literal-host", "query:punycode-name(spelling/history invariance)", "file:line>64KiB", "repeat:cache-hit", "repeat:hit-under-other-spelling",
 		"repeat:after-eviction", "query-matched-by>=2-rules-with-different-results", "empty-rule-list"} {
 		if seen[k] {
 			out = append(out, k)
@@ -158,12 +171,20 @@ func TestVerifC09_Match(t *testing.T) {
 		file := c.renderFile(rules)
 		capN := rapid.SampledFrom([]int{1, 2, 4, 1024}).Draw(rt, "cache")
 		qs := c.genQueries(rules, 5, 60, true)
-		rs := v09Build(file, len(rules), capN)
+		for i := range rules { // one lookup per rule that this rule matches (no draws): a dropped rule shows
+			qs = append(qs, v09Witness(&rules[i]))
+		}
+		long := c.n(0, 39, "longLine") == 0 // drawn last so earlier draws keep their meaning
+		if long {
+			file = v09LongLine(file, c.n(0, 40, "longAt"), c.n(0, 3, "longHow"))
+		}
+		rs := v09Build(file, capN)
+		fresh := func() CompiledRuleSet[int] { return v09Build(file, capN) }
 		sh := v09Analyse(qs, capN)
 		firsts := make([]int, 0, len(qs))
 		fail := ""
 		for i := range qs {
-			msg, first, all := v09CheckOne(rs, rules, obm, &qs[i])
+			msg, first, all := v09CheckOne(rs, fresh, rules, obm, &qs[i])
 			firsts = append(firsts, first)
 			if len(all) > 1 && v09MultiDiff(rules, all) {
 				sh.multiDiff = true
@@ -173,8 +194,11 @@ func TestVerifC09_Match(t *testing.T) {
 				break
 			}
 		}
+		if long {
+			st.Class("file:line>64KiB")
+		}
 		nt := sh.repeatEvicted && sh.multiDiff
-		st.Case(nt, file+"\x00"+v09Keys(qs), v09Classes(rules, qs[:len(firsts)], firsts, sh, capN), func() string {
+		st.Case(nt, v09Abbrev(file)+"\x00"+v09Keys(qs), v09Classes(rules, qs[:len(firsts)], firsts, sh, capN), func() string {
 			return v09RenderCase(file, capN, qs, len(qs)-1)
 		})
 		if fail != "" {
@@ -211,6 +235,7 @@ func TestVerifC09_Grid(t *testing.T) {
 		v4s   []netip.Addr
 		v6s   []netip.Addr
 		ports []uint16
+		pre   string // text in front of the rules
 	}
 	names := []string{"", "example.com", "EXAMPLE.COM.", "notexample.com", "sub.example.com", "Sub.Example.Com", "com", "example.co", "example.com.evil.org"}
 	v4s := []netip.Addr{{}, a("10.0.0.1"), a("10.0.1.1"), a("10.0.2.1")}
@@ -287,6 +312,23 @@ func TestVerifC09_Grid(t *testing.T) {
 			run("ob3", 0, 0, 0, "::1", "0.0.0.0/0", "10.10.0.0/16", "10.20.0.0/16", "255.255.255.255/32"),
 			one(rl{Ob: "ob1", Kind: v09KSuffix, Dom: "example.com", Proto: 0, AnyPort: true, Text: "ob1(suffix:example.com)"}),
 		), names: []string{"", "example.com", "10.30.0.1"}, v4s: nets4, v6s: nets6, ports: []uint16{79, 80, 443, 444}},
+		// Punycode host names in every spelling (spelling/history invariance) next to plain names (reference)
+		{rules: []v09Rule{
+			rl{Ob: "ob1", Kind: v09KWild, Dom: "b*cher.example", Proto: 0, AnyPort: true, Text: "ob1(b*cher.example)"},
+			rl{Ob: "ob2", Kind: v09KWild, Dom: "xn--*", Proto: 1, AnyPort: true, Text: "ob2(xn--*, tcp)"},
+			rl{Ob: "ob3", Kind: v09KExact, Dom: "xn--mnchen-3ya.example", Proto: 0, AnyPort: true, Hijack: a("8.8.8.8"), Text: "ob3(xn--mnchen-3ya.example, *, 8.8.8.8)"},
+			rl{Ob: "direct", Kind: v09KSuffix, Dom: "example", Proto: 2, Lo: 53, Hi: 53, Text: "direct(suffix:example, udp/53)"},
+			rl{Ob: "reject", Kind: v09KWild, Dom: "m*nchen.*", Proto: 0, AnyPort: true, Text: "reject(m*nchen.*)"},
+		}, names: []string{"xn--bcher-kva.example", "XN--BCHER-KVA.EXAMPLE", "Xn--Bcher-Kva.Example.", "xN--bcher-kva.example", "bucher.example", "BCHER.example.",
+			"xn--mnchen-3ya.example", "XN--MNCHEN-3YA.EXAMPLE.", "www.Xn--Mnchen-3ya.example", "munchen.example", "xn--fsq.example", "XN--FSQ.EXAMPLE"},
+			v4s: v4s[:2], v6s: v6s[:2], ports: []uint16{53, 80}},
+		// lines longer than 64 KiB (comment; rule padded with blanks) do not end the rule list
+		{pre: "# " + strings.Repeat("long comment ", 5100) + "\n", rules: []v09Rule{
+			rl{Ob: "ob1", Kind: v09KExact, Dom: "example.com", Proto: 1, Lo: 80, Hi: 80, Text: "ob1(example.com, tcp/80)"},
+			rl{Ob: "ob2", Kind: v09KSuffix, Dom: "example.com", Proto: 0, AnyPort: true, Text: "ob2(" + strings.Repeat(" \t", 33000) + "suffix:example.com)" + strings.Repeat(" ", 66000)},
+			rl{Ob: "ob3", Kind: v09KCIDR, Addr: a("10.0.0.0"), Bits: 23, Proto: 0, AnyPort: true, Text: "ob3(10.0.0.0/23) #" + strings.Repeat("x", 66000)},
+			rl{Ob: "direct", Kind: v09KAll, Proto: 2, AnyPort: true, Text: "direct(all, udp)"},
+		}, names: names[:5], v4s: v4s, v6s: v6s[:2], ports: []uint16{79, 80, 81}},
 	}
 	protos := []int{1, 2}
 	obm := v09ObMap()
@@ -298,9 +340,10 @@ func TestVerifC09_Grid(t *testing.T) {
 		for i := range rules {
 			lines = append(lines, rules[i].Text)
 		}
-		file := strings.Join(lines, "\n") + "\n"
+		file := g.pre + strings.Join(lines, "\n") + "\n"
 		for _, capN := range []int{1, 2, 4, 1024} {
-			rs := v09Build(file, len(rules), capN)
+			rs := v09Build(file, capN)
+			fresh := func() CompiledRuleSet[int] { return v09Build(file, capN) }
 			n, multi, fail := 0, false, ""
 			for inner := 0; inner < 5 && fail == ""; inner++ { // which dimension is the innermost loop
 				order := []int{}
@@ -322,12 +365,12 @@ func TestVerifC09_Grid(t *testing.T) {
 							return // an IP-literal host only together with that resolved address (bound)
 						}
 						n++
-						msg, _, all := v09CheckOne(rs, rules, obm, &q)
+						msg, _, all := v09CheckOne(rs, fresh, rules, obm, &q)
 						if len(all) > 1 && v09MultiDiff(rules, all) {
 							multi = true
 						}
 						if msg != "" {
-							fail = fmt.Sprintf("file %d cache=%d pass %d lookup #%d: %s\nrules:\n%s", fi, capN, inner, n, msg, file)
+							fail = fmt.Sprintf("file %d cache=%d pass %d lookup #%d: %s\nrules:\n%s", fi, capN, inner, n, msg, v09Abbrev(file))
 						}
 						return
 					}
@@ -339,7 +382,7 @@ func TestVerifC09_Grid(t *testing.T) {
 				rec(0)
 			}
 			st.Case(multi || len(rules) == 0, fmt.Sprintf("grid/%d/%d", fi, capN), []string{fmt.Sprintf("cache=%d", capN)}, func() string {
-				return fmt.Sprintf("grid file %d cache=%d: %d lookups in 5 passes over %v names x v4 x v6 x proto x port\n%s", fi, capN, n, dims, file)
+				return fmt.Sprintf("grid file %d cache=%d: %d lookups in 5 passes over %v names x v4 x v6 x proto x port\n%s", fi, capN, n, dims, v09Abbrev(file))
 			})
 			st.Extra(fmt.Sprintf("grid_lookups_file%d_cache%d", fi, capN), n)
 			if fail != "" { // (recorded above first: the driver needs at least one sample per stats file)
